@@ -842,11 +842,30 @@ def gen_case(rng: random.Random) -> dict:
 _TMP: typing.Optional[Path] = None
 
 
+def _sweep_stale_tmp() -> None:
+    """Remove scratch trees of worker processes that no longer exist (pool workers do not run atexit handlers)."""
+    base = Path(tempfile.gettempdir())
+    for d in base.glob("verif-expr-*"):
+        try:
+            pid = int(d.name.split("-")[2])
+            os.kill(pid, 0)
+        except (ValueError, IndexError, PermissionError):
+            continue
+        except ProcessLookupError:
+            shutil.rmtree(d, ignore_errors=True)
+
+
 def tmp_root() -> Path:
     global _TMP
     if _TMP is None or not _TMP.exists():
+        _sweep_stale_tmp()
         _TMP = Path(tempfile.mkdtemp(prefix="verif-expr-%d-" % os.getpid()))
         atexit.register(shutil.rmtree, str(_TMP), True)
+        try:
+            from multiprocessing import util as _mpu
+            _mpu.Finalize(None, shutil.rmtree, args=(str(_TMP), True), exitpriority=1)
+        except Exception:  # noqa
+            pass
     return _TMP
 
 
